@@ -2,9 +2,9 @@ package main
 
 import (
 	"fmt"
-	"sort"
 	"go/token"
 	"go/types"
+	"sort"
 	"strings"
 
 	"golang.org/x/tools/go/ssa"
@@ -172,7 +172,6 @@ func siteShape(in ssa.Instruction) string {
 	return in.String()
 }
 
-
 // spilledParam: the cell only ever holds a parameter of its function (a by-value parameter whose
 // address is taken, e.g. for a method call or a field access).
 func spilledParam(al *ssa.Alloc) *ssa.Parameter {
@@ -188,7 +187,6 @@ func spilledParam(al *ssa.Alloc) *ssa.Parameter {
 	}
 	return p
 }
-
 
 // canonLin renders a linear form with its atoms in normalised shape, terms sorted.
 func canonLin(l lin, d int) string {
